@@ -154,6 +154,13 @@ func seqRule(c *core.Ctx, t *c10type) {
 		c.Fail("C10-SEQ", key, c.Prog.Pos(set.Pos()), fmt.Sprintf("SetSequenceID stores into %q but GetSequenceID returns %q", stored, gv.chain))
 		return
 	}
+	// the store must reach the caller's PDU: the setter needs a pointer receiver (with a value receiver it updates a copy)
+	if sig, ok := set.Type().(*types.Signature); ok && sig.Recv() != nil {
+		if _, isPtr := sig.Recv().Type().(*types.Pointer); !isPtr {
+			c.Fail("C10-SEQ", key, c.Prog.Pos(set.Pos()), "SetSequenceID has a value receiver: the assignment is made to a copy and the PDU keeps its old sequence number")
+			return
+		}
+	}
 	// header offset
 	want := seqOffsetFor(t.Rel)
 	off, found := 0, -1
